@@ -19,7 +19,7 @@ from vlib import *
 SEC, MS, H = m5.SEC, m5.MS, m5.H
 HOSTS = {b"web": b"a.example.com", b"api": b"b.example.com"}
 HEALTH = b"/up"
-YIELDS = ["req:routed", "req:gate-passed", "pause:gate-set", "req:lb-picked"]
+YIELDS = ["req:routed", "req:gate-passed", "pause:gate-set", "req:lb-picked", "req:gate-woken"]
 # event kinds that a view or the monitor looks at (model/M5path.v: kept; props/C07.v: c07_dropped_events_ignored);
 # the others are dropped before the trace term is built
 KEPT = {"issue", "return", "respond", "routed", "svc-copy", "slot", "install", "removed", "pick", "gate-set", "gate-read",
@@ -115,6 +115,16 @@ def forced():
                     st_sleep(SEC), {"op": "stop", "id": "c3", "async": False, "name": H(b"web"), "msg": H(b"x"), "drain_timeout": 0},
                     st_sleep(SEC), st_pause("c4", b"web", 3 * SEC, async_=False), st_req("r3"), st_sleep(SEC),
                     st_deploy("c5", b"web", [b"tb:80"]), st_req("r4"), st_sleep(SEC), st_resume("c6", b"web", async_=False)]
+    # a resume wakes r1; before r1 runs on, the service is paused again: r1's outcome was decided by the resume (D3 face on the
+    # real code: it goes on although paused again); it must not be held for a second max-pause
+    sc["woken-then-paused"] = [st_deploy("c1", b"web", [b"ta:80"]), st_pause("c2", b"web", 2 * SEC, async_=False), st_req("r1"),
+                               st_sleep(SEC), st_arm("req:gate-woken"), st_resume("c3", b"web", async_=False), st_sleep(0),
+                               st_pause("c4", b"web", 5 * SEC, async_=False), st_rel("req:gate-woken"), st_req("r2"),
+                               st_sleep(3 * SEC), st_resume("c5", b"web", async_=False)]
+    sc["woken-then-stopped"] = [st_deploy("c1", b"web", [b"ta:80"]), st_pause("c2", b"web", 2 * SEC, async_=False), st_req("r1"),
+                                st_sleep(SEC), st_arm("req:gate-woken"), st_resume("c3", b"web", async_=False), st_sleep(0),
+                                st_stop("c4", b"web", async_=False), st_rel("req:gate-woken"), st_sleep(SEC),
+                                st_resume("c5", b"web", async_=False)]
     return [(k, {"steps": v + st_end()}) for k, v in sc.items()]
 
 
@@ -321,7 +331,7 @@ def run(tier, seed):
             terms = []
             for sc, o in pairs:
                 flags = list_lit(["(%d, %s)" % (r, bool_lit(h)) for r, h in req_flags(sc)])
-                terms.append("(%s,\n %s)" % (m5.trace_term([e for e in o["events"] if e["kind"] in KEPT]), flags))
+                terms.append("(%s,\n (%s : list (nat * bool)))" % (m5.trace_term([e for e in o["events"] if e["kind"] in KEPT]), flags))
             return m4x.coq_map(work, IMPORTS, "", terms, EXPR, tag, shard=6)
 
         def bad(r):
